@@ -6,6 +6,8 @@ mod suite01;
 mod suite05;
 mod suite06;
 mod suite07;
+#[cfg(feature = "std")]
+mod suite08;
 mod suite13;
 mod suite14;
 mod suite16;
@@ -23,6 +25,8 @@ fn exec(suite: u32, input: &[u64]) -> Vec<u64> {
         50 => suite05::exec(input),
         60 => suite06::exec(input),
         70 => suite07::exec(input),
+        #[cfg(feature = "std")]
+        80 | 90 | 100 | 110 | 120 | 200 => suite08::exec(suite, input),
         130 => suite13::exec(input),
         140 => suite14::exec140(input),
         150 => suite14::exec150(input),
@@ -88,6 +92,18 @@ fn main() {
                 50 => suite05::gen(tier, &mut rng, &mut emit),
                 60 => suite06::gen(tier, &mut rng, &mut emit),
                 70 => suite07::gen(tier, &mut rng, &mut emit),
+                #[cfg(feature = "std")]
+                80 => suite08::gen80(tier, &mut rng, &mut emit),
+                #[cfg(feature = "std")]
+                90 => suite08::gen90(tier, &mut rng, &mut emit),
+                #[cfg(feature = "std")]
+                100 => suite08::gen100(tier, &mut rng, &mut emit),
+                #[cfg(feature = "std")]
+                110 => suite08::gen110(tier, &mut rng, &mut emit),
+                #[cfg(feature = "std")]
+                120 => suite08::gen120(tier, &mut rng, &mut emit),
+                #[cfg(feature = "std")]
+                200 => suite08::gen200(tier, &mut rng, &mut emit),
                 130 => suite13::gen(tier, &mut rng, &mut emit),
                 140 => suite14::gen140(tier, &mut rng, &mut emit),
                 150 => suite14::gen150(tier, &mut rng, &mut emit),
